@@ -47,11 +47,11 @@ MODS = ["cvss", "cvss.constants2", "cvss.constants3", "cvss.constants4", "cvss.c
         "cvss.exceptions", "cvss.parser", "cvss.interactive", "cvss.cvss_calculator"]
 
 
-def fresh_probe(seed, hashseed="0", extra_env=None):
+def fresh_probe(seed, hashseed="0", extra_env=None, flags=()):
     env = dict(os.environ)
     env.update({"PYTHONHASHSEED": str(hashseed), "PYTHONDONTWRITEBYTECODE": "1", "PYTHONIOENCODING": "utf-8"})
     env.update(extra_env or {})
-    p = subprocess.run([sys.executable, "-B", "-m", "vmon.probe19", str(seed)], cwd=bootstrap.VERIF, env=env,
+    p = subprocess.run([sys.executable, "-B"] + list(flags) + ["-m", "vmon.probe19", str(seed)], cwd=bootstrap.VERIF, env=env,
                        stdout=subprocess.PIPE, stderr=subprocess.PIPE, timeout=600)
     if p.returncode != 0:
         raise RuntimeError("fresh probe failed: " + p.stderr.decode()[-500:])
@@ -733,6 +733,15 @@ def replay(R, w):
         shard_decimal(R.P, case["rounding"], seed, base)
     elif case["kind"] == "threads":
         thread_workload(R.P, case["seed"], case["threads"], case["per_thread"], case["yield_probability"])
+    elif case["kind"] == "flags":
+        try:
+            other, err2 = fresh_probe(seed, "0", flags=case["flags"])
+        except RuntimeError as e:
+            R.P.violation("interpreter-flags", w["key"], case, error=str(e)[-300:])
+            return
+        R.P.ev("interpreter-flags")
+        if probe19.diff(base, other) is not None or err2.strip():
+            R.P.violation("interpreter-flags", w["key"], case)
     elif case["kind"] == "cold-switch":
         # deterministic up to the operating system: the same single preemption is made again
         shard_cold_switch(R.P, case["first_vectors"], 0, 1, case["seed"])
@@ -753,7 +762,7 @@ def replay(R, w):
 
 def run(R):
     R.rule = RULE
-    R.require("history", "global-state", "silent", "aliasing", "threads", "threads-cold-start", "threads-cold-switch", "hash-seed", "decimal")
+    R.require("history", "global-state", "silent", "aliasing", "threads", "threads-cold-start", "threads-cold-switch", "hash-seed", "interpreter-flags", "decimal")
     R.assumptions = ["decimal signal FLAGS are not part of the fingerprint (every decimal operation sets them by design)",
                      "thread interleavings are sampled (GIL switch interval 10 us + injected yields at library lines)",
                      "fresh-process baseline under PYTHONHASHSEED=0 with the default decimal context"]
@@ -802,6 +811,26 @@ def run(R):
             sec, i, fields, x, y = d
             P.violation("hash-seed", "C19:hash-seed:probe-differs:%s" % sec, {"kind": "hashseed", "seed": R.seed, "hashseed": hs},
                         seed0=x, this_seed=y)
+    # 4b interpreter options an application may legitimately run under: asserts stripped (-O, -OO), warnings turned
+    # into errors, bytes/str comparisons turned into errors -- the same sequential probe must come out the same
+    for flags in (["-O"], ["-OO"], ["-W", "error"], ["-bb"]):
+        P.evaluations += 1
+        P.dist(("interpreter-flags", tuple(flags)))
+        try:
+            other, err2 = fresh_probe(R.seed, "0", flags=flags)
+        except RuntimeError as e:
+            P.violation("interpreter-flags", "C19:interpreter-flags:%s:probe-fails" % "".join(flags), {"kind": "flags", "seed": R.seed, "flags": flags},
+                        error=str(e)[-400:])
+            continue
+        P.ev("interpreter-flags")
+        d = probe19.diff(seq, other)
+        if d is not None:
+            sec, i, fields, x, y = d
+            P.violation("interpreter-flags", "C19:interpreter-flags:%s:probe-differs:%s:%s" % ("".join(flags), sec, "+".join(fields[:2]) or "value"),
+                        {"kind": "flags", "seed": R.seed, "flags": flags}, probe_input=inputs0[sec][i] if i >= 0 else None, default=x, with_flags=y)
+        if err2.strip():
+            P.violation("global-state", "C19:interpreter-flags:%s:writes-to-stderr" % "".join(flags), {"kind": "flags", "seed": R.seed, "flags": flags},
+                        written=err2[:300])
     # 5 decimal contexts
     if not R.quick:
         PRECS[0] = (28, 29, 30, 34, 40, 50, 64, 100, 1000)
